@@ -722,3 +722,61 @@ def gen_faults(seed, tier):
             b.ops.append({"op": "faultsweep", "auto": rng.choice(AUTO_STYLES), "t": 1})
         out.append(b.ops)
     return out
+
+
+def gen_failclosed(seed, tier):
+    """C17 (sequential clause): decorations selected by name -- registered (also overwritten), built-in,
+    unknown, case variants, empty -- then rendered; unknown names must fail closed."""
+    rng = random.Random(seed * 141650939 + 17)
+    n = 150 if tier == "quick" else 3000
+    out = []
+    for i in range(n):
+        b = GridBuilder(rng)
+        build_table(rng, b, rng.randint(1, 3), rng.randint(0, 3), lambda: S(rng.choice(["a", "bb", "a\nb", ""])))
+        mine = []
+        for _ in range(rng.randint(0, 3)):
+            name = rng.choice(["mine", "Mine", "other", "utf8-heavy", "x.y", "csv"])
+            fields = rng.sample(DECOR_FIELDS, rng.randint(1, 6))
+            b.ops.append({"op": "regdecor", "name": name, "custom": dict(zip(fields, rng.sample(GLYPHS, len(fields))))})
+            mine.append(name)
+        b.ops.append({"op": "wrap", "kind": "text", "over": {"t": 1}})
+        for _ in range(rng.randint(1, 4)):
+            name = rng.choice(DECOR_NAMES + mine + mine + ["nonesuch", "", "NONE", "Utf8-Heavy", "mine", "ascii", " none", "none "])
+            b.ops.append({"op": "decor", "w": 1, "name": name})
+            b.ops.append({"op": "render", "w": 1, "entry": rng.choice(["Render", "RenderTo"])})
+        out.append(b.ops)
+    return out
+
+
+def gen_auto(seed, tier):
+    """C19: random registry extensions (dotted, case variants, sub-package look-alikes) and style strings."""
+    rng = random.Random(seed * 15487469 + 19)
+    n = 120 if tier == "quick" else 3000
+    out = []
+    names = ["mine", "Mine", "MINE", "a.b", "a.b.c", "x", "csv", "CSV", "Json", "texttable", "texttable.z", "utf8-heavy", "my style", "é", "a"]
+    base = ["csv", "html", "json", "markdown", "texttable"] + DECOR_NAMES
+    for i in range(n):
+        ops = []
+        regd = []
+        for _ in range(rng.randint(0, 3)):
+            nm = rng.choice(names)
+            fields = rng.sample(DECOR_FIELDS, rng.randint(1, 5))
+            ops.append({"op": "regdecor", "name": nm, "custom": dict(zip(fields, rng.sample(GLYPHS, len(fields))))})
+            regd.append(nm)
+        for _ in range(rng.randint(1, 6)):
+            if rng.random() < 0.15:
+                ops.append({"op": "liststyles"})
+                continue
+            s = rng.choice(base + regd + regd + ["nonesuch", ""])
+            r = rng.random()
+            if r < 0.2:
+                s = s.upper()
+            elif r < 0.3:
+                s = s.capitalize()
+            if rng.random() < 0.3:
+                s = rng.choice(["texttable.", "TextTable.", "TEXTTABLE."]) + s
+            if rng.random() < 0.3:
+                s = s + rng.choice([".x", ".x.y", ".", "..", ".csv"])
+            ops.append({"op": "autonew", "style": s})
+        out.append(ops)
+    return out
